@@ -72,7 +72,8 @@ fn token_case(cs: &mut Cases, s: &str) {
 /// the same string as a credential: `Authorization: Bearer <s>` and `Cookie: sess=<s>` through generated endpoints
 /// (conjure-http's `parse_header_auth` / `parse_cookie_auth`), for strings HTTP can carry in a header value
 fn auth_case(cs: &mut Cases, s: &str) {
-    if s.is_empty() || !s.bytes().all(|b| (0x21..0x7f).contains(&b)) {
+    // (blanks and tabs are legal inside a header value: a credential with blanks around it is not a token)
+    if s.is_empty() || !s.bytes().all(|b| (0x20..0x7f).contains(&b) || b == b'\t') {
         return;
     }
     let ret = crate::svc::Ret { mixed: String::new(), aliases: vec![], set: Default::default(), bin: vec![], map: Default::default(), opt_str: None, doubles_json: "{\"d\":1.0,\"da\":2.0,\"inner\":{\"x\":0.5}}".into(), list: vec![], dmap: Default::default() };
@@ -298,7 +299,7 @@ pub fn cases(seed: u64, tier: Tier) -> Cases {
     let talpha = ["a", "z", "A", "0", "9", "-", "_", ".", "~", "+", "/", "=", "\n", "é"];
     let tmax = if tier == Tier::Quick { 4 } else { 5 };
     all_strings(&talpha, tmax, &mut |s| token_case(&mut cs, s));
-    for s in ["Bearer abc", " a", "a ", "a=b", "a==", "====", "a\u{0}", "a\u{7f}", "aé=", "\u{ff1d}", "a\u{2028}", "AZaz09-._~+/=", "@", "[", "`", "{", ":", ",", "%41", "a\t"] {
+    for s in [" abc", "abc ", "\tabc==", "abc\t", "  a.b-c  ", "a b", "Bearer abc", " a", "a ", "a=b", "a==", "====", "a\u{0}", "a\u{7f}", "aé=", "\u{ff1d}", "a\u{2028}", "AZaz09-._~+/=", "@", "[", "`", "{", ":", ",", "%41", "a\t"] {
         token_case(&mut cs, s);
     }
     // one code point at a time, alone and inside a token: everything up to U+017F, then the rest of the Basic
@@ -338,6 +339,14 @@ pub fn cases(seed: u64, tier: Tier) -> Cases {
     all_strings(&ralpha, rmax, &mut |w| rid_case(&mut cs, &format!("ri.{}", w)));
     let ralpha2 = ["r", "i", ".", "a", "\n", "R"];
     all_strings(&ralpha2, if tier == Tier::Quick { 4 } else { 6 }, &mut |w| rid_case(&mut cs, w));
+    // components longer than 16-bit offsets can address (the accessors must still cut the string where the grammar does)
+    for n in [255usize, 256, 65533, 65534, 65535, 65536, 70000] {
+        let long: String = std::iter::repeat('a').take(n).collect();
+        rid_case(&mut cs, &format!("ri.{}.i.t.loc", long));
+        rid_case(&mut cs, &format!("ri.s.{}.t.loc", long));
+        rid_case(&mut cs, &format!("ri.s.i.{}.loc.x", long));
+        rid_case(&mut cs, &format!("ri.s.i.t.{}", long));
+    }
     let valids = ["ri.my-service.instance1.folder.foo_bar.baz", "ri.a..b.c", "ri.a.0.b-1.A.B..c", "ri.s1.1-a.t-.-", "ri.service.i.type.loc-ator_1.2"];
     let mchars: Vec<char> = "aA0-_.r\n é:/".chars().collect();
     for v in valids {
